@@ -141,6 +141,25 @@ Proof.
 Qed.
 Print Assumptions C05_ids_unique.
 
+(* ---- k generations, of any interleaving of the seven kinds, give k pairwise distinct ids, none of which is the id of an
+   element of the source document - for ANY document and ANY hash function *)
+Theorem C05_gen_sequence_fresh : forall h (doc : doc_ids) ks out,
+  run h (map (Gen) ks) (new_cache h doc) = Some out ->
+  List.length out = List.length ks /\ NoDup out /\ (forall x tag, In x out -> x <> ""%string -> ~ In (tag, x) doc).
+Proof.
+  intros h doc ks out H.
+  destruct (gen_sequence_fresh h (populate all_ids_filter doc) ks (new_cache h doc) out) as (L & ND & F); auto.
+  - intros k; destruct k; reflexivity.
+  - repeat split; auto. intros x tag Hx Hne Hin. apply (F x Hx).
+    change all_ids_filter with (@None (list string)). apply (populate_all doc tag x); auto.
+Qed.
+Print Assumptions C05_gen_sequence_fresh.
+
+(* with a collision-free hash the run never gets stuck *)
+Theorem C05_run_total : forall h evs c, (forall a b, h a = h b -> a = b) -> run h evs c <> None.
+Proof. intros h evs c Hinj. apply run_total. exact Hinj. Qed.
+Print Assumptions C05_run_total.
+
 (* the hypothesis "no id is kept twice" is necessary: keeping the id of one source element for two tree
    elements (cloned definition content, DESIGN section 5 F29 / F22) repeats it *)
 Theorem C05_ids_unique_kept_twice_refuted :
